@@ -181,9 +181,17 @@ import re as _re
 import datetime as _dt
 import math as _math
 import decimal as _decimal
-_PURE_LIBS = {'re': _re, 'datetime': _dt, 'math': _math}
-_PURE_TYPES = (_re.Match, _re.Pattern, _dt.datetime, _dt.date, _dt.timedelta, _dt.time)
+_PURE_LIBS = {'re': _re, 'datetime': _dt, 'math': _math, 'decimal': _decimal}
+_PURE_TYPES = (_re.Match, _re.Pattern, _dt.datetime, _dt.date, _dt.timedelta, _dt.time, _decimal.Decimal, _decimal.Context)
 _PURE_DENY = {'datetime.datetime.now', 'datetime.datetime.today', 'datetime.date.today', 'datetime.datetime.utcnow'}
+
+
+def _exc_ref(exc):
+    """Reference of the nearest builtin exception class of a Python exception raised while folding."""
+    for k in type(exc).__mro__:
+        if getattr(_builtins, k.__name__, None) is k:
+            return Ref(f'builtin:{k.__name__}')
+    return Ref('builtin:Exception')
 
 
 def _concrete(v, depth=0):
@@ -453,6 +461,11 @@ class Interp:
                 self.world.classattrs[(base.ref, t.attr)] = val
             elif isinstance(base, PyModel):
                 setattr(base, t.attr, val)
+            elif isinstance(base, _decimal.Context) and _concrete(val):
+                try:
+                    setattr(base, t.attr, val)
+                except (TypeError, ValueError) as exc:
+                    raise ExcRaised(Ref(f'builtin:{type(exc).__name__}'))
             else:
                 raise Unmodelled(f'attribute store on {base!r}')
         elif isinstance(t, (ast.Tuple, ast.List)):
@@ -518,6 +531,10 @@ class Interp:
                         return self._global(gref_, n)
                 if gref_ and gref_.startswith('ext:typing.') and gref_.rpartition('.')[2] in _TYPING_ORIGINS:
                     return Ref(gref_)
+                if gref_ and gref_.startswith('ext:') and gref_[4:].split('.')[0] in _PURE_LIBS and gref_ not in self.call_models:
+                    val_ = self._global(gref_, n)
+                    if not isinstance(val_, Ref):
+                        return val_
             try:
                 base = self.ev(n.value)
             except Unmodelled:
@@ -780,7 +797,7 @@ class Interp:
                 try:
                     return getattr(recv, fn.attr)(*args, **kwargs)
                 except Exception as exc:
-                    raise ExcRaised(Ref(f'builtin:{type(exc).__name__}'))
+                    raise ExcRaised(_exc_ref(exc))
             if isinstance(recv, (str, int, float)) and not isinstance(recv, bool) and (
                     fn.attr in _STR_METHODS or fn.attr in _NUM_DUNDERS):
                 try:
@@ -836,7 +853,10 @@ class Interp:
             ref = self.a.res.resolve(fn, self.m)
         for key in (ref, text):
             if key in self.call_models:
-                return self.call_models[key](*args, **kwargs)
+                model_ = self.call_models[key]
+                if getattr(model_, 'wants_interp', False):
+                    return model_(self, *args, **kwargs)     # a model expressed in terms of the interpreter's own operations
+                return model_(*args, **kwargs)
         if ref and ref.startswith('ext:operator.') and ref not in self.call_models and len(args) == 2 and not kwargs:
             opname = ref.rpartition('.')[2].strip('_')
             cmpmap = {'lt': ast.Lt, 'le': ast.LtE, 'eq': ast.Eq, 'ne': ast.NotEq, 'gt': ast.Gt, 'ge': ast.GtE, 'is_': ast.Is, 'contains': None}
@@ -871,8 +891,8 @@ class Interp:
             if not any(isinstance(a_, (Opaque, Ref, Rec)) for a_ in args):
                 try:
                     return _PURE[ref[8:]](*args)
-                except (ValueError, TypeError) as exc:
-                    raise ExcRaised(Ref(f'builtin:{type(exc).__name__}'))
+                except Exception as exc:
+                    raise ExcRaised(_exc_ref(exc))
         if ref and ref.startswith(('ext:logging.', 'ext:warnings.warn')) or ref == 'builtin:print':
             return None      # diagnostics only
         if ref and ref.startswith('pkg:'):
@@ -976,8 +996,8 @@ class Interp:
                     return Opaque(fn.id)
             try:
                 return _PURE[fn.id](*args, **kwargs)
-            except (ValueError, TypeError) as exc:
-                raise ExcRaised(Ref(f'builtin:{type(exc).__name__}'))
+            except Exception as exc:
+                raise ExcRaised(_exc_ref(exc))
         raise Unmodelled(f'call {text}(...) at line {n.lineno}')
 
     def _inline(self, om, fnode, args, kwargs, closure=False, skip_first=False, self_class=None):
@@ -1590,6 +1610,16 @@ class Interp:
         target = self._ctxmgr(item.context_expr)
         if target is None:
             val = self.ev(item.context_expr)
+            native = type(val).__module__ in ('decimal', '_decimal', '_pydecimal') and hasattr(val, '__enter__')
+            if native:
+                entered = val.__enter__()
+                try:
+                    if item.optional_vars is not None:
+                        self.store(item.optional_vars, entered)
+                    self._with(s, i + 1)
+                finally:
+                    val.__exit__(None, None, None)
+                return
             if item.optional_vars is not None:
                 self.store(item.optional_vars, val)
             self._with(s, i + 1)
@@ -1675,7 +1705,7 @@ class Interp:
         try:
             return True, obj(*args, **kwargs)
         except Exception as exc:
-            raise ExcRaised(Ref(f'builtin:{type(exc).__name__}'))
+            raise ExcRaised(_exc_ref(exc))
 
     def _transparent_decorator(self, d):
         """Decorators that do not change what a local function does: functools.wraps(...)."""
@@ -1756,6 +1786,13 @@ def _global(self, gref, n):
     if gref in self.world.globals:
         return self.world.globals[gref]
     if gref and gref.startswith('ext:') and gref not in self.call_models:
+        parts_ = gref[4:].split('.')
+        if parts_[0] in _PURE_LIBS and len(parts_) > 1:
+            obj_ = _PURE_LIBS[parts_[0]]
+            for p_ in parts_[1:]:
+                obj_ = getattr(obj_, p_, None)
+            if isinstance(obj_, (str, int, float)) and not isinstance(obj_, bool):
+                return obj_
         try:
             return ext_constant(gref[4:])
         except KeyError:
